@@ -158,12 +158,16 @@ func main() {
 		}
 		runParallel(*jobs, len(jobsList), func(i int) {
 			j := jobsList[i]
-			solveOne(j.o, j.file, []string{"z3-new"}, t1to)
+			to := t1to
+			if j.o.Vacuity && to > 1.5 {
+				to = 1.5
+			}
+			solveOne(j.o, j.file, []string{"z3-new"}, to)
 		})
 		// stage 2: race all solvers for the undecided
 		var rest []job
 		for _, j := range jobsList {
-			if j.o.Verdict != "unsat" && j.o.Verdict != "sat" {
+			if j.o.Verdict != "unsat" && j.o.Verdict != "sat" && !j.o.Vacuity {
 				rest = append(rest, j)
 			}
 		}
@@ -197,7 +201,7 @@ var frGen = map[*FuncResult]*Gen{}
 func verifyFunction(w *World, fn *ssa.Function) *FuncResult {
 	t0 := time.Now()
 	spec := w.specFor(fn)
-	g := &Gen{W: w, fn: fn, spec: spec, fnIDs: map[*ssa.Function]int{}, typeIDs: map[string]int{}, heapSorts: map[string]string{}}
+	g := &Gen{W: w, fn: fn, rootFn: fn, spec: spec, fnIDs: map[*ssa.Function]int{}, typeIDs: map[string]int{}, heapSorts: map[string]string{}}
 	g.reset()
 	mode := "int"
 	if spec != nil && spec.Options["mode"] == "bv64" {
@@ -232,6 +236,13 @@ func verifyFunction(w *World, fn *ssa.Function) *FuncResult {
 		for _, cs := range spec.Callees {
 			if g.calleeUse[cs] == 0 {
 				fr.UnusedCallee = append(fr.UnusedCallee, cs.Name)
+			}
+		}
+		for anchor, cl := range spec.Asserts {
+			for _, c := range cl {
+				if g.assertUse[c] == 0 {
+					fr.Error = "contract-drift: assert anchor not found in the function: " + anchor
+				}
 			}
 		}
 	}
